@@ -1,0 +1,56 @@
+//! Text view of the build-time NFA (cargo feature `verif_hooks`; lives inside `nfa` to see the
+//! private state/edge vectors). Read-only.
+#![allow(missing_docs)]
+use super::{Nfa, NfaStateIndex, Noop, Other, StateKind, Test};
+use regex_syntax::hir::Hir;
+
+fn kind_char(k: StateKind) -> char {
+    match k {
+        StateKind::Accept => 'A',
+        StateKind::Reject => 'R',
+        StateKind::Neither => 'N',
+    }
+}
+
+/// `ok <state>;<state>;… contig=0|1` with `<state> = K|noop targets|lo-hi>to,…|other targets` (K = A, R
+/// or N; edges as the `edges::<L>()` iterator yields them; `contig` says whether for every state
+/// that iterator yields exactly the edges of the storage vector whose `from` is the state),
+/// `error <Kind>`, or `panic`.
+pub fn nfa_dump(hir: &Hir) -> String {
+    let r = std::panic::catch_unwind(std::panic::AssertUnwindSafe(|| Nfa::from_re(hir)));
+    let nfa = match r {
+        Err(_) => return "panic".to_string(),
+        Ok(Err(e)) => return format!("error {e:?}"),
+        Ok(Ok(nfa)) => nfa,
+    };
+    let mut contig = true;
+    let mut states = vec![];
+    for s in 0..nfa.states.len() {
+        let from = NfaStateIndex(s);
+        let a: Vec<usize> = nfa.edges::<Noop>(from).map(|e| e.to.0).collect();
+        let b: Vec<usize> = nfa.edges.noop_edges.iter().filter(|e| e.from == from).map(|e| e.to.0).collect();
+        contig &= a == b;
+        let t: Vec<(u32, u32, usize)> =
+            nfa.edges::<Test>(from).map(|e| (e.label.start(), e.label.end(), e.to.0)).collect();
+        let b: Vec<(u32, u32, usize)> = nfa
+            .edges
+            .test_edges
+            .iter()
+            .filter(|e| e.from == from)
+            .map(|e| (e.label.start(), e.label.end(), e.to.0))
+            .collect();
+        contig &= t == b;
+        let o: Vec<usize> = nfa.edges::<Other>(from).map(|e| e.to.0).collect();
+        let b: Vec<usize> = nfa.edges.other_edges.iter().filter(|e| e.from == from).map(|e| e.to.0).collect();
+        contig &= o == b;
+        let join = |v: &[usize]| v.iter().map(|x| x.to_string()).collect::<Vec<_>>().join(",");
+        states.push(format!(
+            "{}|{}|{}|{}",
+            kind_char(nfa.states[s].kind),
+            join(&a),
+            t.iter().map(|(lo, hi, to)| format!("{lo}-{hi}>{to}")).collect::<Vec<_>>().join(","),
+            join(&o)
+        ));
+    }
+    format!("ok {} contig={}", states.join(";"), if contig { 1 } else { 0 })
+}
